@@ -40,6 +40,9 @@ def main(ctx):
     ex = short_sequences('AGHISP', 4, False) if ctx.tier == 'quick' else short_sequences('AGHISP', 5, False)
     # in-memory stores: the same, with `save` (the store becomes file-backed) and reopening of the saved file
     ex += short_sequences('AGHVP', 4, False, mem=True) if ctx.tier == 'quick' else short_sequences('AGHVP', 5, False, mem=True)
+    # the same short sequences with trajectories that have no points (falsy objects, empty arrays on disk)
+    ex += short_sequences('AGHIP', 3, False, npts=0)
+    ex += short_sequences('AGHV', 3, False, npts=0, mem=True)
     ctx.extra['exhaustive_short_sequences'] = len(ex)
     hs += ex
     check_histories(ctx, hs, OP_CLASS['C07'], 'store_refines_list', nontrivial)
